@@ -92,6 +92,23 @@ NA = {
  "C19": "static tables; exhaustive enumeration, not simulation (DESIGN.md §6)",
  "C20": "function of (block set, options); no schedule, fault or history (DESIGN.md §6)",
 }
+ROUND6 = {
+ "C15": "declared interface dependencies (helpers, helper chains, inherited declarations; each exactly once, switched off, forced at beginning-of-life), table-valued coupler results updated in place, the restarted run's stack",
+ "C06": "a label written twice (the first must survive the refusal), fuel-handler steps that purge an assembly and charge its position later, location histories of one object whose position was vacant at a written step, the history of an assembly held outside any reactor, a refused split",
+ "C04": "parameters the assembly design states in the blueprints and that change during the run",
+ "C05": "entries that are themselves ragged, ragged entries with a zero-length dimension, readers lacking some or most of the writer's flags",
+ "C14": "a refused discharge of a stored assembly (must stay stored), a fresh assembly while the assembly counter is behind, in-core swaps naming a pool assembly and repeated discharges (refusals must be entire)",
+ "C16": "a scope on one component with its neighbours' volumes looked at inside, the grid's stated pitch, keep-sets given as list or iterator, a kept dimension that was a link, parameters taken over between live objects (serial numbers), adjustDensity on a read-only model",
+ "C01": "append and extend as spellings of add, cells of multi-place locators in copies",
+ "C12": "a cladding re-dimensioned between two expansions with one changer and an independent linkage rule, low-level thermal steps with holds, growth that uses up the dummy block exactly",
+ "C13": None,
+ "C02": "composition setters above block level around height / temperature / cold-area steps, assemblies taken out of the core",
+ "C03": "pin-wise and detailed number densities assigned independently",
+}
+for _k, _v in ROUND6.items():
+    if _v:
+        CLAIMED[_k]["text"] = CLAIMED[_k]["text"].replace(" Sampling, not proof.", f" Round 6 (DESIGN §13.6): {_v}. Sampling, not proof.")
+
 PENDING_IDS = ["C01", "C02", "C03", "C04", "C05", "C12", "C13", "C14", "C16"]
 PENDING = {p: "check not built yet in this session (claimed in DESIGN.md; will move to checks when its oracle runs clean)" for p in PENDING_IDS if p not in CLAIMED}
 
